@@ -233,13 +233,11 @@ def zCombineStore (db : DB) (d : Bytes) (ks : List Bytes) (agg : Agg) (inter : B
     | .error e => .err e db2
     | .ok (db3, n) => .ok (.int n) db3
 
-/-- `sqlScan`: no `order by` -/
+/-- `sqlScan`: no `order by`; the planner answers it from the covering index
+`rzset_score_idx (kid, score, elem)`, so rows come ordered by (score, elem) -/
 def zScan (db : DB) (k : Bytes) (cursor : Int) (pat : Bytes) (count : Int) (now : Int) : Res :=
   let count := if count == 0 then scanPageSize else count
-  let rows : List ZRow := match db.liveKeyT k TZSet now with
-    | none => []
-    | some r => sortBy (fun (a b : ZRow) => bytesLt a.elem b.elem) (db.zsets.filter (fun x => x.kid == r.id))
-  let rows := rows.filter (fun x => decide (x.rowid > cursor) && Glob.sqliteGlob pat x.elem)
+  let rows := (zLiveRows db k now).filter (fun x => decide (x.rowid > cursor) && Glob.sqliteGlob pat x.elem)
   let page := sqlLimit 0 count rows
   let cur := maxD 0 (page.map (·.rowid))
   .ok (.list [.int cur, .list (page.map zItem)]) db
